@@ -58,6 +58,17 @@ type Params struct {
 	ChaosMs    int    `json:"chaos_ms"`
 	Count      int    `json:"count"` // notifications per producer in the counting phase
 	Flood      bool   `json:"flood"` // in-flight stop with the report queue kept full by unthrottled direct producers
+	// Queued, when set, replaces the stress run by a stop whose in-flight work the harness arranges itself (see runQueued)
+	Queued *QParams `json:"queued,omitempty"`
+}
+
+// QParams: the event loop is parked inside a data-plane call, Rcv datagrams and Reports notifications arrive meanwhile (the
+// receive queue holds 512, the report queue 128: beyond that the receiver and the producers wait), Stop() is called, and
+// ReleaseMs later the data-plane call returns.
+type QParams struct {
+	Rcv       int `json:"rcv"`
+	Reports   int `json:"reports"`
+	ReleaseMs int `json:"release_ms"`
 }
 
 type Result struct {
@@ -160,6 +171,9 @@ func (s *smf) request(upf *stack.Stack, build func(seq uint32) []byte, res *Resu
 
 func runChild(p Params) (res Result) {
 	runtime.GOMAXPROCS(p.Procs)
+	if p.Queued != nil {
+		return runQueued(p)
+	}
 	rng := rand.New(rand.NewSource(p.Seed))
 	stack.InitProcess()
 	n, err := stack.ReserveNet(stack.Net2FromEnv(117))
@@ -602,6 +616,135 @@ func runChild(p Params) (res Result) {
 	return
 }
 
+// runQueued: "whatever is in flight at that moment" with the moment chosen by the harness - a stop while the receive queue
+// (and the report queue) is full and the loop is busy.  The loop must work off what is queued, see that the receiver has
+// closed, and return; receiver, producers and timers must finish.
+func runQueued(p Params) (res Result) {
+	q := *p.Queued
+	d := stack.NewModelDriver()
+	gate := make(chan struct{})
+	entered := make(chan struct{}, 1)
+	d.Hook = func(op, kind string, seid uint64, id uint32) {
+		if op == "create" && kind == "FAR" && id == 77 {
+			select {
+			case entered <- struct{}{}:
+			default:
+			}
+			<-gate
+		}
+	}
+	st, err := stack.New(stack.Opts{Driver: d, Nodes: 2, MaxRetrans: uint8(p.MaxRetrans), Retrans: time.Duration(p.RetransMs) * time.Millisecond, Net2: stack.Net2FromEnv(117)})
+	if err != nil {
+		res.Inconclusive = err.Error()
+		return
+	}
+	r := stack.NewRunner(st, d)
+	urr := stack.RuleOp{Verb: "create", Kind: "URR", ID: 1, Method: 2, Trig: 2}
+	for _, op := range []stack.Op{{Kind: "assoc", Peer: 0, Node: 0, Sess: -1}, {Kind: "assoc", Peer: 1, Node: 1, Sess: -1},
+		{Kind: "est", Peer: 1, Node: 1, Sess: -1, CP: 0x21, Rules: []stack.RuleOp{urr}}} {
+		if o := r.Step(op); o.Dead != nil || o.Stuck {
+			res.Inconclusive = "prefix failed"
+			return
+		}
+	}
+	if len(r.Sess) == 0 || !r.Sess[0].Known {
+		res.Inconclusive = "prefix session not established"
+		return
+	}
+	up := r.Sess[0].UP
+	b, err := r.Build(stack.Op{Kind: "est", Peer: 0, Node: 0, Sess: -1, CP: 0x99, Rules: []stack.RuleOp{{Verb: "create", Kind: "FAR", ID: 77, Action: 2, HasAction: true}}}, 0x7777)
+	if err != nil {
+		panic(err)
+	}
+	if err := st.Send(0, b); err != nil {
+		panic(err)
+	}
+	select {
+	case <-entered:
+	case <-time.After(10 * time.Second):
+		res.Inconclusive = "the Establishment never reached the data plane"
+		return
+	}
+	// datagrams behind the busy loop: heartbeats, and now and then an Establishment (so that timers start when they are served)
+	for i := 0; i < q.Rcv; i++ {
+		op := stack.Op{Kind: "hb", Peer: i % 2, Sess: -1}
+		if i%50 == 7 {
+			op = stack.Op{Kind: "est", Peer: i % 2, Node: i % 2, Sess: -1, CP: uint64(0x1000 + i), Rules: []stack.RuleOp{urr}}
+		}
+		dg, err := r.Build(op, uint32(100+i))
+		if err != nil {
+			panic(err)
+		}
+		if err := st.Send(i%2, dg); err != nil {
+			panic(err)
+		}
+		if i%64 == 63 {
+			time.Sleep(time.Millisecond) // do not overrun the UDP socket buffer
+		}
+	}
+	wantRcv := min(q.Rcv, 512)
+	deadline := time.Now().Add(5 * time.Second)
+	for time.Now().Before(deadline) {
+		if rcv, _, _ := st.Srv.VerifQueues(); rcv >= wantRcv {
+			break
+		}
+		time.Sleep(200 * time.Microsecond)
+	}
+	if rcv, _, _ := st.Srv.VerifQueues(); rcv < wantRcv {
+		res.Inconclusive = fmt.Sprintf("only %d of %d datagrams queued after 5 s", rcv, wantRcv)
+		close(gate)
+		return
+	}
+	// report producers: up to 128 fit the queue, the rest wait inside NotifySessReport
+	var pwg sync.WaitGroup
+	for i := 0; i < q.Reports; i++ {
+		pwg.Add(1)
+		go func(i int) {
+			defer pwg.Done()
+			st.Srv.NotifySessReport(report.SessReport{SEID: up, Reports: []report.Report{report.USAReport{URRID: 1, USARTrigger: report.UsageReportTrigger{Flags: 2}}}})
+		}(i)
+	}
+	if q.Reports > 0 {
+		time.Sleep(5 * time.Millisecond)
+	}
+	res.Posted = int64(q.Reports)
+	res.Requests = int64(q.Rcv)
+	st.Srv.Stop()
+	time.Sleep(time.Duration(q.ReleaseMs) * time.Millisecond)
+	close(gate)
+	done := make(chan struct{})
+	go func() { st.WaitGroup().Wait(); close(done) }()
+	select {
+	case <-done:
+	case <-time.After(15 * time.Second):
+		state, frame, _ := stack.LoopState()
+		rcv, sr, tr := st.Srv.VerifQueues()
+		res.Key = "stop-hang:" + frame
+		res.Violation = fmt.Sprintf("Stop() while the loop was busy and %d datagrams / %d notifications were waiting (queues now: receive %d, report %d, timer %d): 15 s after the data-plane call returned the server's goroutines have not finished (event loop: %s at %s)",
+			q.Rcv, q.Reports, rcv, sr, tr, state, frame)
+		return
+	}
+	pdone := make(chan struct{})
+	go func() { pwg.Wait(); close(pdone) }()
+	select {
+	case <-pdone:
+	case <-time.After(5 * time.Second):
+		res.Key = "stop-hang:internal/pfcp.(*PfcpServer).NotifySessReport"
+		res.Violation = fmt.Sprintf("5 s after the server stopped report producers are still blocked inside NotifySessReport (%d were posted)", q.Reports)
+		return
+	}
+	if st.Dead != nil {
+		res.Key, res.Violation = st.Dead.Key, fmt.Sprintf("UPF fatal exit: %.600s", st.Dead.Msg)
+		return
+	}
+	if c := stack.TakeCrash(); c != nil {
+		res.Key, res.Violation = c.Key, fmt.Sprintf("UPF fatal exit: %.600s", c.Msg)
+		return
+	}
+	res.OK = true
+	return
+}
+
 func TestC17Child(t *testing.T) {
 	js := os.Getenv("VERIF_C17_CHILD")
 	if js == "" {
@@ -765,6 +908,23 @@ func reportAll(t vcore.Failer, p Params, vs []*vcore.Violation) bool {
 
 func account(p Params, r Result, races []string, out string) {
 	vcore.E.Eval()
+	if p.Queued != nil {
+		vcore.E.Class("stop_with_arranged_queues")
+		if r.Inconclusive != "" || (out != "" && panicKey(out) == "") {
+			vcore.E.Exclude("inconclusive")
+			vcore.E.Note(r.Inconclusive + out[max(0, len(out)-300):])
+			return
+		}
+		if p.Queued.Rcv >= 512 {
+			vcore.E.Class("stop_with_a_full_receive_queue")
+			vcore.E.NonTrivial(vcore.JSON(p))
+			vcore.E.Sample("arranged", p)
+		}
+		if p.Queued.Reports > 128 {
+			vcore.E.Class("stop_with_producers_waiting_for_the_report_queue")
+		}
+		return
+	}
 	vcore.E.Class("stop_" + p.StopMode)
 	if r.Inconclusive != "" || (out != "" && panicKey(out) == "") {
 		vcore.E.Exclude("inconclusive")
@@ -787,6 +947,11 @@ func account(p Params, r Result, races []string, out string) {
 }
 
 func gen(t *rapid.T) Params {
+	if rapid.IntRange(0, 3).Draw(t, "arranged") == 0 {
+		return Params{Procs: rapid.SampledFrom([]int{2, 4, 16}).Draw(t, "procs"), RetransMs: rapid.IntRange(1, 5).Draw(t, "retrans"), MaxRetrans: rapid.IntRange(0, 3).Draw(t, "maxretrans"), StopMode: "arranged",
+			Queued: &QParams{Rcv: rapid.SampledFrom([]int{0, 1, 100, 511, 512, 513, 600, 900}).Draw(t, "rcv"), Reports: rapid.SampledFrom([]int{0, 0, 5, 128, 129, 300}).Draw(t, "reports"),
+				ReleaseMs: rapid.SampledFrom([]int{0, 2, 20, 200}).Draw(t, "release_ms")}}
+	}
 	return Params{
 		Seed:       rapid.Int64Range(1, 1<<40).Draw(t, "seed"),
 		SMFs:       rapid.IntRange(2, 4).Draw(t, "smfs"),
@@ -820,6 +985,14 @@ func TestC17(t *testing.T) {
 	}
 	if explicit {
 		return
+	}
+	// stops whose in-flight work the harness arranges: receive queue at, below and beyond its capacity
+	for _, qp := range []QParams{{Rcv: 512, ReleaseMs: 20}, {Rcv: 700, Reports: 200, ReleaseMs: 2}, {Rcv: 40, Reports: 129}} {
+		qp := qp
+		p := Params{Procs: 4, RetransMs: 2, MaxRetrans: 1, StopMode: "arranged", Queued: &qp}
+		r, races, out := child(p)
+		account(p, r, races, out)
+		reportAll(t, p, classify(p, r, races, out))
 	}
 	vcore.Check(t, vcore.N(24, 80), func(rt *rapid.T) {
 		p := gen(rt)
